@@ -3,7 +3,7 @@ import re
 
 from ..facts import Broken, strip, const, walk, walk_eval, show
 from ..interp import path
-from .. import cfgq, scantab
+from .. import cfgq, scantab, memrules
 from . import c04
 from .. import sqlmodel
 
@@ -357,3 +357,9 @@ def run(prog, chk):
         r4.ok("cif_buf_write", "wrap-around check dominates the copy")
     else:
         r4.violation(bw.file, bw.name, bw.line, "cif_buf_write-overflow", "cif_buf_write copies without the position + len wrap-around check")
+
+    r5 = chk.rule("R5-storage-loops-progress", "no loop of the storage / serialisation units is idempotent (call-free and without "
+                  "loop-carried state): the buffer-growth and copy loops advance for every size", primary=False, floor=30)
+    n_loops = memrules.stuck_loops(prog, r5, only_units=("value.c", "container.c", "loop.c", "pktitr.c", "packet.c", "map.c", "cif.c"))
+    if n_loops < 30:
+        raise Broken("only %d loops found in the storage units" % n_loops)
